@@ -62,6 +62,9 @@ func runC01(idx int, rng *rand.Rand, tier string) []Case {
 	if idx < len(c01Corpus) {
 		return []Case{c01Corpus[idx]()}
 	}
+	if idx%24 == 3 {
+		return []Case{c01LinGen(rng, idx)}
+	}
 	if idx%4 != 0 {
 		// single call on the lattice
 		f, p, t := pick64(rng), pick64(rng), pick64(rng)
@@ -202,4 +205,112 @@ var c01Corpus = []func() Case{
 	func() Case { return c01Loop(3, 10, make([]int64, 200)) },
 	func() Case { return c01Loop(2000000000, time.Second, make([]int64, 50)) },
 	func() Case { return c01Call(1, time.Second, time.Second, math.MaxUint64) },
+}
+
+// ---- linear pacer: closed loop in virtual time, every call recorded ------------------------------
+func c01LinGen(rng *rand.Rand, idx int) Case {
+	var f int64 = 1 + rng.Int63n(1000)
+	var per int64 = 1e9
+	var slope float64
+	switch rng.Intn(8) {
+	case 0: // flat
+		slope = 0
+	case 1: // steep
+		slope = float64(1+rng.Intn(1000)) * 1000
+	case 2: // decreasing: the rate reaches zero after f/|slope| seconds
+		slope = -float64(f) / (0.5 + rng.Float64()*20)
+	case 3:
+		f, per = 1+rng.Int63n(50), int64(1+rng.Intn(60))*1e9
+		slope = rng.Float64() * 3
+	case 4: // degenerate and negative parameters
+		f, per = []int64{0, -1, 5, 5, -3}[rng.Intn(5)], []int64{1e9, 1e9, 0, -1e9, -1}[rng.Intn(5)]
+		slope = rng.NormFloat64()
+	case 5: // high rates
+		f = 1e6 * (1 + rng.Int63n(100))
+		slope = rng.Float64() * 1e6
+	default:
+		slope = rng.Float64() * float64(f)
+	}
+	n := 20 + rng.Intn(250)
+	stalls := make([]int64, n)
+	mode := rng.Intn(3)
+	for i := range stalls {
+		iv := per / max64(f, 1)
+		if iv < 0 || iv > 1e12 {
+			iv = 1e9
+		}
+		switch mode {
+		case 1:
+			if rng.Intn(10) == 0 {
+				stalls[i] = rng.Int63n(10*iv + 1)
+			}
+		case 2:
+			stalls[i] = rng.Int63n(3*iv + 1)
+		}
+	}
+	return c01LinLoop(int(f), time.Duration(per), slope, stalls)
+}
+
+func max64(a, b int64) int64 {
+	if a > b {
+		return a
+	}
+	return b
+}
+
+type paceCall struct {
+	tc int64
+	k  uint64
+	o  paceOut
+}
+
+func c01LinLoop(f int, per time.Duration, slope float64, stalls []int64) Case {
+	var c Case
+	lp := vegeta.LinearPacer{StartAt: vegeta.Rate{Freq: f, Per: per}, Slope: slope}
+	var t int64
+	var k uint64
+	var calls []paceCall
+	for _, s := range stalls {
+		tc := t + s
+		o := callPace(lp, time.Duration(tc), k)
+		calls = append(calls, paceCall{tc, k, o})
+		if o.kind != 0 {
+			break
+		}
+		wt := o.w
+		if wt < 0 {
+			wt = 0
+		}
+		if tc+wt < tc { // the virtual clock would wrap
+			break
+		}
+		t = tc + wt
+		k++
+	}
+	w := &c.W
+	w.Z(3)
+	w.I(f); w.Z(int64(per)); w.F(slope)
+	w.I(len(calls))
+	for _, cl := range calls {
+		w.Z(cl.tc); w.U(cl.k); w.Out(cl.o)
+	}
+	// Rate() at a few instants
+	w.I(3)
+	for _, tt := range []int64{0, t / 2, t} {
+		w.Z(tt)
+		w.F(lp.Rate(time.Duration(tt)))
+	}
+	cls := "linear.pos"
+	switch {
+	case f <= 0 || per <= 0:
+		cls = "linear.degenerate"
+	case slope < 0:
+		cls = "linear.negslope"
+	case slope == 0:
+		cls = "linear.flat"
+	}
+	c.Tag = cls + ";nt"
+	c.Dist = fmt.Sprintf("%s/n%d", cls, sizeClass(len(calls)))
+	c.Sample = map[string]interface{}{"pacer": fmt.Sprintf("Linear{%d/%d slope %g}", f, int64(per), slope), "calls": len(calls), "end": t, "hits": k}
+	return c
 }
